@@ -29,7 +29,7 @@ func round5Scenarios() []func() []monFailure {
 	return []func() []monFailure{scenOwnerAfterRolledBackRegistration, scenParamsAfterFailedProposal, scenRecreateOverExpiredStream, scenPartialUnlockWithOtherHolder, scenSignerListWithBlanks,
 		scenRecheckAfterFeeChange, scenReregisterSameMoniker, scenSameBlockCancel, scenManyDenominationsSupply, scenOnlyRegistryMsgsUnlock,
 		scenStartingIdsAcrossExport, scenZeroHeightExportInMintWindow, scenEmptiedAccountSurvivesExport, scenFeeRuleOverLayouts, scenQueuesLongerThanAPage,
-		scenAcceptAndRejectThresholdsBothMet, scenUpdateAndTopUpSameBlock}
+		scenAcceptAndRejectThresholdsBothMet, scenUpdateAndTopUpSameBlock, scenStaleHeightsInEveryWrapping}
 }
 
 // C09 / C13: a transaction [register; record on the id it is about to receive; a failing message] is rolled back as a
@@ -1049,6 +1049,63 @@ func scenUpdateAndTopUpSameBlock() []monFailure {
 	} else if !refund.Equal(sdk.NewInt(5800)) {
 		for _, prop := range []string{"C12", "C11"} {
 			s.fail(prop, 0, fmt.Sprintf("a drained stream was re-rated to 20/s and topped up with 6000nund in one block; the cancel 10 s later refunds %snund, the unreleased remainder is 5800nund", refund))
+		}
+	}
+	return s.failures
+}
+
+// C07 (round 8): stale heights in every wrapping.  With heights 10, 20, 30 recorded: a transaction [record 50, record 40],
+// a record at 25 (a gap) or 5 nested in MsgExec by the owner, and a plain record at 20 with other hashes must all be
+// refused; the cursor stays at 30 and the three records read back as submitted.
+func scenStaleHeightsInEveryWrapping() []monFailure {
+	cfg := fixedCfg()
+	cfg.wrkParams = wrktypes.NewParams(1000, 10, 5, "nund", 4, 5)
+	s := &scen{c: newChain(cfg), name: "stale-heights-in-every-wrapping"}
+	defer s.c.close()
+	c := s.c
+	s.blockStart(5 * time.Second)
+	s.tx(2, nundCoins(1000), c.mRegRegister(true, 2, "w", "n", "g", "t").m)
+	for _, h := range []uint64{10, 20, 30} {
+		s.tx(2, nundCoins(10), c.mRegRecord(true, 2, 1, h, []string{fmt.Sprintf("h%d", h), "p", "", "", ""}).m)
+	}
+	s.blockEnd()
+	snap := func() string {
+		ctx := c.committedCtx()
+		wc, _ := c.app.WrkchainKeeper.GetWrkChain(ctx, 1)
+		out := fmt.Sprintf("last=%d", wc.Lastblock)
+		for _, h := range []uint64{10, 20, 30} {
+			b, ok := c.app.WrkchainKeeper.GetWrkChainBlock(ctx, 1, h)
+			out += fmt.Sprintf(" | %d:%v:%s", h, ok, b.Blockhash)
+		}
+		return out
+	}
+	want := snap()
+	if !strings.HasPrefix(want, "last=30") {
+		return s.failures
+	}
+	rec := func(h uint64, tag string) mmsg { return c.mRegRecord(true, 2, 1, h, []string{tag, "p", "", "", ""}) }
+	tries := []struct {
+		what string
+		fee  int64
+		msgs []mmsg
+	}{
+		{"[record 50, record 40] in one transaction", 20, []mmsg{rec(50, "x50"), rec(40, "x40")}},
+		{"MsgExec{record 25} by the owner (a height in a gap below the cursor)", 0, []mmsg{c.mExec(2, []mmsg{rec(25, "x25")})}},
+		{"MsgExec{record 5} by the owner", 0, []mmsg{c.mExec(2, []mmsg{rec(5, "x5")})}},
+		{"a plain record at 20 with other hashes", 10, []mmsg{rec(20, "tampered")}},
+		{"a plain record at 30 with other hashes", 10, []mmsg{rec(30, "tampered")}},
+	}
+	for _, t := range tries {
+		var msgs []sdk.Msg
+		for _, m := range t.msgs {
+			msgs = append(msgs, m.m)
+		}
+		s.blockStart(5 * time.Second)
+		r := s.tx(2, nundCoins(t.fee), msgs...)
+		s.blockEnd()
+		if got := snap(); got != want {
+			s.fail("C07", 0, fmt.Sprintf("%s (code %d) changed the WRKChain's records: before %s, after %s", t.what, r.Code, want, got))
+			return s.failures
 		}
 	}
 	return s.failures
